@@ -225,14 +225,15 @@ def verify_unit(name, seed=None, rlimit=None, items=None, mutate=None, keep=True
         mutate(out)
     os.makedirs(BUILD, exist_ok=True)
     suffix = "_twin" if twin else ("" if mutate is None else f"_mut{os.getpid()}")
-    src = os.path.join(BUILD, f"{name}{suffix}.rs")
+    keep_file = os.environ.get("VERIF_KEEP") == "1" or __name__ == "__main__"
+    src = os.path.join(BUILD, f"{name}{suffix}.rs" if keep_file else f"{name}{suffix}_{os.getpid()}.rs")
     with open(src, "w") as f:
         f.write(out.text())
     rl = rlimit or unit.get("rlimit")
     res, diags, wall, rc, stderr, cmd = run_verus(src, rlimit=rl, seed=seed, timeout=unit.get("timeout", 1800))
     failures, notes = classify(unit, out, res, diags, stderr)
     vr = res["verification-results"]
-    if not keep:
+    if not keep or not keep_file:
         try:
             os.remove(src)
         except OSError:
